@@ -104,7 +104,7 @@ func (ds *dataStore) AppendRecord(rec *Record) (pos Position, err error) {
 
 func (ds *dataStore) flush(chunk int, force bool) error {
 	if utils.VerifOn {
-		utils.Verif("f.enter", ds.bucketID, chunk, force)
+		utils.Verif("f.enter", ds.bucketID, chunk, force, ds.home)
 		defer utils.Verif("f.exit", ds.bucketID, chunk)
 	}
 	if ds.wbufSize == 0 {
